@@ -49,7 +49,7 @@ Definition mnode_outputs (nl : mnetlist) (st : mstate) (ins : list bv) (v : vals
       [ if isRead
         then mem_read cfg (nth mem (ms_mems st) []) (map (latch_of nl v) prev) (pin_of v (mn_ins n))
         else all_X (c_width cfg); []; [] ]
-  | MMemory => [[]; []; []; []]
+  | MMemory => [[]; []]
   end.
 
 Definition mcomb_eval (nl : mnetlist) (st : mstate) (ins : list bv) : vals :=
